@@ -138,9 +138,6 @@ SELFTESTS = [
     dict(name='sorted-without-reverse', quick=True,
          mutate=[('mofun.atoms', 'sorted_indices = sorted(indices, reverse=True)', 'sorted_indices = sorted(indices)')],
          instance=dict(family='delete', N=4, terms={'bond': 2}, K=2)),
-    dict(name='reindex >= instead of >',
-         mutate=[('mofun.atoms', 'where=updated_arr>i)', 'where=updated_arr>=i)')],
-         instance=dict(family='delete', N=3, terms={'angle': 1}, K=1)),
     dict(name='pop-noop', quick=True,
          mutate=[('mofun.atoms', "        if pos < 0:\n            pos += len(self)\n        del(self[[pos]])", "        del(self, pos)")],
          instance=dict(family='pop', N=3, terms={'bond': 1}, pop=True)),
